@@ -229,6 +229,15 @@ def gen_history(rng, opts=None):
                     st[p] = dict(st[p])
                     st[p]["mode"] = "755" if st[p]["mode"] == "644" else "644"
                     ops.append({"o": "chmod", "path": p, "mode": st[p]["mode"]})
+            if rng.random() < 0.3:
+                # a byte-identical copy of a journal file under another selected name (same blob id, two files):
+                # both are journal files of the commit, both are loaded
+                srcs = sorted(p for p, v in st.items() if v["k"] == "journal")
+                dsts = [p for p, c in sel if p not in st and free(st, p)]
+                if srcs and dsts:
+                    s_, q = rng.choice(srcs), rng.choice(dsts)
+                    st[q] = {"k": "journal", "tag": st[s_]["tag"], "mode": "644"}
+                    ops.append({"o": "put", "path": q, "k": "journal", "tag": st[s_]["tag"], "mode": "644"})
             if rng.random() < 0.12:
                 gp = rng.choice([d + "/mod." + e, "vendor/lib", d + "/sub/module"])
                 if gp not in st and free(st, gp):
@@ -860,9 +869,21 @@ class C08(PropBase):
             tx = ig["out"]["txns"]
             if tx.get("r") != "OK":
                 return "txns output: %s" % tx.get("r")
-            lp = self.loaded_paths(case, tx["v"])
-            if lp != mg["sel"]:
-                return "git selection differs: impl loaded %s, model selects %s" % (lp, mg["sel"])
+            # which files were loaded, as the multiset of their content versions (two files may hold identical bytes)
+            state = replay_states(case["hist"])[case["commit"]]
+            cnt = {}
+            for t_ in tx["v"]:
+                d_ = t_.get("desc") or ""
+                try:
+                    tg = int(d_.split("|")[0][1:])
+                except ValueError:
+                    tg = "?" + d_
+                cnt[tg] = cnt.get(tg, 0) + 1
+            lt = sorted(str(tg) for tg, c_ in cnt.items() for _ in range(c_ // (1 + tg % 2) if isinstance(tg, int) else c_))
+            mt = sorted(str(state[p_]["tag"]) if p_ in state else "?" + p_ for p_ in mg["sel"])
+            if lt != mt:
+                return "git selection differs: impl loaded versions %s (%s), model selects %s" % (
+                    lt, self.loaded_paths(case, tx["v"]), mg["sel"])
             if tx["v"] != mg["txns"]:
                 return "loaded transactions differ (same files): impl=%s model=%s" % (str(tx["v"])[:400], str(mg["txns"])[:400])
         ifs, mfs = impl.get("fs"), model["fs"]
